@@ -9,7 +9,7 @@
 
 From Coq Require Import List NArith PArith Bool Arith Lia FMapPositive.
 From OxiVerif Require Import DD.Table DD.TableProofs DD.Sem DD.Build DD.BuildProofs
-  DD.Apply DD.ApplyProofs Mgr.Oom Mgr.OomProofs Mgr.OomSafe.
+  DD.Apply DD.ApplyProofs Mgr.Oom Mgr.OomProofs Mgr.OomSafe Mgr.OomGc.
 Import ListNotations.
 
 Definition ex3 : snap :=
@@ -108,4 +108,30 @@ Proof.
   - apply ex3_refs_ok.
   - vm_compute. lia.
   - exists su, cu, ru. split; [exact E | exact X].
+Qed.
+
+(** failure, collection, retry: [ex3] holds no garbage (exact counts, none
+    zero), so a collection after the failed negation (capacity 8) restores
+    [ex3]; the retry is then decided by the capacity alone *)
+Example ex3_no_garbage : forall id nd, find_node ex3 id = Some nd -> reachable ex3 (handle_refs ex3) (RN id).
+Proof.
+  intros id nd E.
+  pose proof (no_dead_reachable ex3 [] (bo_wf ex3 (proj1 ex3_ok))) as R. rewrite app_nil_r in R.
+  apply (R ltac:(vm_compute; reflexivity) ltac:(vm_compute; reflexivity) id nd E).
+Qed.
+
+Example ex3_recover : forall s' c',
+  not_nc 8 false ex3 (RN 5) = ROom s' c' ->
+  collected (with_handles s' (s_handles s')) ex3 /\
+  (forall cap p, 9 <= cap -> exists su ru, not_nc cap p ex3 (RN 5) = ROk su tt ru).
+Proof.
+  intros s' c' E. split.
+  - destruct (oom_safe_not unit nc_get nc_add nc_lossy 8 (fun _ => false) 4 ex3 tt (RN 5) s' c')
+      as [_ [_ [X _]]]; [apply ex3_ok | apply nc_ok | apply ex3_refs_ok | vm_compute; lia | exact E|].
+    apply (gc_restores ex3 s' (proj1 ex3_ok) X ex3_no_garbage).
+  - intros cap p Hcap.
+    destruct (apply_not unit nc_get nc_add 4 ex3 tt (RN 5)) as [[[su []] ru]|] eqn:Eu; [|vm_compute in Eu; discriminate].
+    exists su, ru. unfold not_nc. change (S (nlevels ex3)) with 4.
+    apply (oom_retry_not unit nc_get nc_add cap (fun _ => p) 4 ex3 tt (RN 5) su tt ru Eu).
+    vm_compute in Eu. inversion Eu; subst su. vm_compute. lia.
 Qed.
